@@ -31,6 +31,7 @@ BFIELDS = ["label", "btype", "stereo", "f_order", "attrib"]
 KNOWN_LIST = "C01:attrib:list-as-tuple"
 KNOWN_DBL = "C01:attrib:double-as-single-float"
 KNOWN_FORDER = "C01:bond.f_order:double-as-single-float"
+KNOWN_RANGE = "C01:attrib:double-beyond-single-range-refused"
 
 
 # ====================================================================== floats at single precision
@@ -419,3 +420,534 @@ def from_j(j):
 
 def _hashable(k):
     return tuple(_hashable(x) for x in k) if isinstance(k, (list, tuple)) else k
+
+
+# ====================================================================== objects <-> descriptions
+def enum_tables():
+    from molli.chem import AtomType, AtomStereo, AtomGeom, BondType, BondStereo
+    return {"atype": [int(x) for x in AtomType], "astereo": [int(x) for x in AtomStereo], "geom": [int(x) for x in AtomGeom],
+            "btype": [int(x) for x in BondType], "bstereo": [int(x) for x in BondStereo]}
+
+
+def build(desc):
+    """description (JSON-able) -> a real Molecule / ConformerEnsemble, through the public constructors only"""
+    import numpy as np
+    import molli as ml
+    from molli.chem import Atom, Element, AtomType, AtomStereo, AtomGeom, BondType, BondStereo
+    atoms = [Atom(element=Element(a["element"]), isotope=a["isotope"], label=a["label"], atype=AtomType(a["atype"]),
+                  stereo=AtomStereo(a["stereo"]), geom=AtomGeom(a["geom"]), formal_charge=a["formal_charge"],
+                  formal_spin=a["formal_spin"], attrib=from_j(a["attrib"])) for a in desc["atoms"]]
+    n = len(atoms)
+    fl = lambda xs: np.array([float.fromhex(x) for x in xs], dtype=np.float64)
+    if desc["kind"] == "mol":
+        o = ml.Molecule(atoms, name=desc["name"], charge=desc["charge"], mult=desc["mult"],
+                        coords=fl(desc["coords"]).reshape(n, 3), atomic_charges=fl(desc["charges"]).reshape(n),
+                        attrib=from_j(desc["attrib"]))
+    else:
+        k = desc["nconf"]
+        o = ml.ConformerEnsemble(atoms if n else None, n_conformers=k, n_atoms=0, name=desc["name"], charge=desc["charge"],
+                                 mult=desc["mult"], coords=fl(desc["coords"]).reshape(k, n, 3),
+                                 weights=fl(desc["weights"]).reshape(k), atomic_charges=fl(desc["charges"]).reshape(k, n),
+                                 attrib=from_j(desc["attrib"]))
+    for b in desc["bonds"]:
+        o.connect(b["a1"], b["a2"], label=b["label"], btype=BondType(b["btype"]), stereo=BondStereo(b["stereo"]),
+                  f_order=float.fromhex(b["f_order"]), attrib=from_j(b["attrib"]))
+    return o
+
+
+def describe(o, kind):
+    """a real object -> every field the property lists, as plain python data (enum members as ints)"""
+    import numpy as np
+    d = {"kind": kind, "name": o.name, "charge": _pv(o.charge), "mult": _pv(o.mult), "attrib": copy.deepcopy(o.attrib),
+         "atoms": [{f: _pv(copy.deepcopy(getattr(a, f))) for f in AFIELDS} for a in o.atoms],
+         "bonds": [dict(a1=o.atoms.index(b.a1), a2=o.atoms.index(b.a2),
+                        **{f: _pv(copy.deepcopy(getattr(b, f))) for f in BFIELDS}) for b in o.bonds],
+         "n_atoms": int(o.n_atoms), "n_bonds": int(o.n_bonds),
+         "coords": [float(x) for x in np.asarray(o.coords, dtype=np.float64).reshape(-1)],
+         "coords_shape": tuple(np.shape(o.coords)),
+         "charges": [float(x) for x in np.asarray(o.atomic_charges, dtype=np.float64).reshape(-1)],
+         "charges_shape": tuple(np.shape(o.atomic_charges))}
+    if kind == "ens":
+        d["nconf"] = int(o.n_conformers)
+        d["weights"] = [float(x) for x in np.asarray(o.weights, dtype=np.float64).reshape(-1)]
+        d["weights_shape"] = tuple(np.shape(o.weights))
+    else:
+        d["nconf"], d["weights"], d["weights_shape"] = 0, [], (0,)
+    return d
+
+
+def desc_of(d):
+    """describe() output -> JSON-able description accepted by build()"""
+    hx = lambda xs: [float(x).hex() for x in xs]
+    return {"kind": d["kind"], "name": d["name"], "charge": d["charge"], "mult": d["mult"], "attrib": to_j(d["attrib"]),
+            "atoms": [{**{f: a[f] for f in AFIELDS if f != "attrib"}, "attrib": to_j(a["attrib"])} for a in d["atoms"]],
+            "bonds": [{"a1": b["a1"], "a2": b["a2"], "label": b["label"], "btype": b["btype"], "stereo": b["stereo"],
+                       "f_order": float(b["f_order"]).hex(), "attrib": to_j(b["attrib"])} for b in d["bonds"]],
+            "nconf": d["nconf"], "coords": hx(d["coords"]), "charges": hx(d["charges"]), "weights": hx(d["weights"])}
+
+
+def cq_obj(d):
+    atoms = cq_list("(mk_atom " + " ".join(cq_val(a[f]) for f in AFIELDS) + ")" for a in d["atoms"])
+    bonds = cq_list(f"(mk_bond {cq_N(b['a1'])} {cq_N(b['a2'])} " + " ".join(cq_val(b[f]) for f in BFIELDS) + ")" for b in d["bonds"])
+    arr = lambda xs: cq_list(cq_Z(f32_bits(x)) for x in xs)
+    return (f"(mk_obj {cq_val(d['name'])} {cq_val(d['charge'])} {cq_val(d['mult'])} {cq_val(d['attrib'])} {atoms} {bonds} "
+            f"{cq_N(d['nconf'])} {arr(d['coords'])} {arr(d['charges'])} {arr(d['weights'])})")
+
+
+# ====================================================================== the oracle (implementation only)
+def _feq(a, b):
+    return a == b or (a != a and b != b)
+
+
+def vdiff(a, b, path, out):
+    """deep comparison of two attribute values; appends (path, kind), kind in list-as-tuple / double-as-single / other"""
+    a, b = _pv(a), _pv(b)
+    if isinstance(a, bool) or isinstance(b, bool):
+        if not (isinstance(a, bool) and isinstance(b, bool) and a == b):
+            out.append((path, "other"))
+    elif isinstance(a, float) and isinstance(b, float):
+        if not _feq(a, b):
+            out.append((path, "double-as-single" if f64_bits(b) == f64_bits(_single(a)) else "other"))
+    elif isinstance(a, (list, tuple)) and isinstance(b, (list, tuple)):
+        if type(a) is not type(b):
+            out.append((path, "list-as-tuple" if isinstance(a, list) and isinstance(b, tuple) else "other"))
+        if len(a) != len(b):
+            out.append((path, "other"))
+        else:
+            for i, (x, y) in enumerate(zip(a, b)):
+                vdiff(x, y, path, out)
+    elif isinstance(a, dict) and isinstance(b, dict):
+        if set(a) != set(b) or any(type(k) is not type(k2) for k, k2 in zip(sorted(a, key=repr), sorted(b, key=repr))):
+            out.append((path, "other"))
+        else:
+            for k in a:
+                vdiff(a[k], b[k], path, out)
+    elif type(a) is not type(b) or a != b:
+        out.append((path, "other"))
+
+
+def _single(x):
+    import numpy as np
+    with np.errstate(all="ignore"):
+        return float(np.float32(x))
+
+
+def judge(inp, back, ver):
+    """inp, back: describe() of the object stored / read back.  -> list of (signature, text)."""
+    kind = inp["kind"]
+    tag = f"C01:v{ver}:{kind}"
+    vs = []
+
+    def other(field, text):
+        vs.append((f"{tag}:{field}", f"{field}: {text}"))
+
+    def cmp_val(field, a, b, known_dbl=KNOWN_DBL):
+        out = []
+        vdiff(a, b, field, out)
+        for _, k in out:
+            if k == "list-as-tuple":
+                vs.append((KNOWN_LIST, f"{field}: a list was read back as a tuple ({a!r} -> {b!r})"[:300]))
+            elif k == "double-as-single":
+                vs.append((known_dbl, f"{field}: a double was read back as its single-precision rounding ({a!r} -> {b!r})"[:300]))
+            else:
+                other(field, f"stored {a!r}, read back {b!r}"[:300])
+
+    for f in ("name", "charge", "mult"):
+        cmp_val(f, inp[f], back[f])
+    if ver == 2:
+        cmp_val("attrib", inp["attrib"], back["attrib"])
+    for f in ("n_atoms", "n_bonds", "nconf"):
+        if inp[f] != back[f]:
+            other(f, f"stored {inp[f]}, read back {back[f]}")
+    afs = AFIELDS if ver == 2 else AFIELDS[:6]
+    bfs = BFIELDS if ver == 2 else BFIELDS[:4]
+    if len(inp["atoms"]) == len(back["atoms"]):
+        for i, (a, b) in enumerate(zip(inp["atoms"], back["atoms"])):
+            for f in afs:
+                cmp_val(f"atom.{f}", a[f], b[f])
+    if len(inp["bonds"]) == len(back["bonds"]):
+        for i, (a, b) in enumerate(zip(inp["bonds"], back["bonds"])):
+            if (a["a1"], a["a2"]) != (b["a1"], b["a2"]):
+                other("bond.endpoints", f"bond {i}: stored {(a['a1'], a['a2'])}, read back {(b['a1'], b['a2'])}")
+            for f in bfs:
+                cmp_val(f"bond.{f}", a[f], b[f], KNOWN_FORDER if f == "f_order" else KNOWN_DBL)
+    for f in ("coords", "charges", "weights"):
+        if tuple(inp[f + "_shape"]) != tuple(back[f + "_shape"]):
+            other(f + ".shape", f"stored {inp[f + '_shape']}, read back {back[f + '_shape']}")
+        elif [f32_bits(x) for x in inp[f]] != [f32_bits(x) for x in back[f]]:
+            k = next(i for i, (x, y) in enumerate(zip(inp[f], back[f])) if f32_bits(x) != f32_bits(y))
+            other(f + ".value", f"entry {k}: stored {inp[f][k]!r}, read back {back[f][k]!r} (differs at single precision)")
+    seen, res = set(), []
+    for s, t in vs:
+        if s not in seen:
+            seen.add(s)
+            res.append((s, t))
+    return res
+
+
+# ====================================================================== storing and reading back (public API)
+def lib_class(kind):
+    import molli as ml
+    return ml.MoleculeLibrary if kind == "mol" else ml.ConformerLibrary
+
+
+def new_library(path, kind, ver):
+    """an empty library file of the wanted encoding; legacy files are recognised by their magic"""
+    cls = lib_class(kind)
+    if os.path.exists(path):
+        os.remove(path)
+    if ver == 1:
+        cls(path, readonly=False, h1=b"ML10Library")      # creates the file; later handles select the v1 codec
+    else:
+        cls(path, readonly=False)
+
+
+def store_and_read(path, kind, ver, objs, batch=40):
+    """objs: {key: object}.  Every object is written in a writing() session of a writable handle; afterwards a FRESH
+    read-only handle reads every key in a reading() session.  -> {key: ('ok', object) | ('raised', where, exception)}"""
+    cls = lib_class(kind)
+    new_library(path, kind, ver)
+    res = {}
+    keys = list(objs)
+    for s in range(0, len(keys), batch):
+        w = cls(path, readonly=False)
+        with w.writing():
+            for k in keys[s:s + batch]:
+                try:
+                    w[k] = objs[k]
+                except Exception as e:       # noqa
+                    res[k] = ("raised", "write", e)
+        del w
+    r = cls(path, readonly=True)
+    with r.reading():
+        for k in keys:
+            if k in res:
+                continue
+            try:
+                res[k] = ("ok", r[k])
+            except Exception as e:           # noqa
+                res[k] = ("raised", "read", e)
+    return res
+
+
+# ====================================================================== generators
+def gen_value(rng, depth, risky):
+    """a msgpack-able attribute value.  risky=False keeps to values msgpack returns unchanged (tuples, singles)."""
+    r = rng.random()
+    if depth <= 0 or r < 0.55:
+        c = rng.randrange(9)
+        if c == 0:
+            return None
+        if c == 1:
+            return rng.random() < 0.5
+        if c == 2:
+            return rng.choice([0, 1, -1, 127, 128, -33, 65536, 2 ** 40, -2 ** 40, 2 ** 63 - 1, -2 ** 63])
+        if c == 3:
+            return rng.choice(["", "x", "attr", "with space", "é中文", "line\nbreak", "q\"uote", "z" * 40])
+        if c == 4:
+            return rng.choice([b"", b"\x00\xff", b"bytes", bytes(range(33))])
+        if c in (5, 6):
+            if risky and rng.random() < 0.6:
+                return rng.choice([0.1, -2.7, 1e-50, 1.0000000001, math.pi, 1e300])
+            return rng.choice([0.0, -0.0, 0.5, -2.25, 1.5, 1e10, float("inf"), float("-inf"), float("nan"), 2.0 ** -140,
+                               float(_single(rng.uniform(-100, 100)))])
+        return rng.randrange(-1000, 1000)
+    n = rng.randrange(0, 4)
+    if r < 0.75:
+        items = [gen_value(rng, depth - 1, risky) for _ in range(n)]
+        return items if (risky and rng.random() < 0.7) else tuple(items)
+    return gen_dict(rng, depth - 1, risky, n)
+
+
+def gen_dict(rng, depth, risky, n=None):
+    n = rng.randrange(0, 4) if n is None else n
+    d = {}
+    for _ in range(n):
+        k = rng.choice(["a", "key", "k2", "é", "", "coords", "name", 3, -7, 2 ** 33]) if rng.random() < 0.85 else rng.choice([b"bk", 0])
+        d[k] = gen_value(rng, depth, risky)
+    return d
+
+
+COORD_SPECIALS = [0.0, -0.0, float("nan"), float("inf"), float("-inf"), 1e-40, 1e-46, 1e39, -1e39, 3.4028235e38, 1.17549435e-38,
+                  123456.789, 1e-7, 0.1]
+
+
+def gen_float(rng, lo, hi, special=0.12):
+    if rng.random() < special:
+        return rng.choice(COORD_SPECIALS)
+    x = rng.uniform(lo, hi)
+    return _single(x) if rng.random() < 0.3 else x
+
+
+def gen_desc(rng, E, kind, ver, max_atoms=8, risky=False):
+    n = rng.choice([0, 0, 1, 1, 2, 3]) if rng.random() < 0.3 else rng.randrange(0, max_atoms + 1)
+    atoms = []
+    for i in range(n):
+        t = rng.random()
+        atype = rng.choice([100, 101]) if t < 0.15 else rng.choice(E["atype"])
+        atoms.append({"element": 0 if (t < 0.08) else rng.randrange(0, 119),
+                      "isotope": rng.choice([None, None, 0, 1, 2, 13, 235, 2 ** 33]),
+                      "label": rng.choice([None, None, "", "C1", f"A{i}", "é中", "with space", "L" * 30]),
+                      "atype": atype, "stereo": rng.choice(E["astereo"]), "geom": rng.choice(E["geom"]),
+                      "formal_charge": rng.choice([0, 0, 1, -1, 2, -3]), "formal_spin": rng.choice([0, 0, 1, 2, 3]),
+                      "attrib": to_j(gen_dict(rng, 2, risky) if rng.random() < 0.35 else {})})
+    bonds = []
+    if n:
+        for j in range(rng.choice([0, 0, 1, n, n + 2]) if rng.random() < 0.5 else rng.randrange(0, n + 2)):
+            a1, a2 = rng.randrange(n), rng.randrange(n)
+            fo = rng.choice([0.1, 1.3, 2.7]) if (risky and rng.random() < 0.5) else rng.choice([1.0, 1.0, 1.5, 0.5, 2.0, 0.0, 2.5, 0.25])
+            bonds.append({"a1": a1, "a2": a2, "label": rng.choice([None, None, "", "b", "é"]), "btype": rng.choice(E["btype"]),
+                          "stereo": rng.choice(E["bstereo"]), "f_order": float(fo).hex(),
+                          "attrib": to_j(gen_dict(rng, 2, risky) if rng.random() < 0.3 else {})})
+    k = rng.choice([0, 1, 1, 2, 3, 4]) if kind == "ens" else 1
+    hx = lambda xs: [float(x).hex() for x in xs]
+    sp = rng.choice([0.0, 0.05, 0.3])
+    d = {"kind": kind, "ver": ver, "name": rng.choice(["m", "", "unknown", "é中 name", "a b\tc", "n" * 60, "mol-%d" % rng.randrange(1000)]),
+         "charge": rng.choice([0, 0, 1, -1, -2, 3, -7, 2 ** 31]), "mult": rng.choice([1, 1, 2, 3, 4, 7]),
+         "attrib": to_j(gen_dict(rng, 3, risky) if rng.random() < 0.6 else {}),
+         "atoms": atoms, "bonds": bonds, "nconf": k if kind == "ens" else 0,
+         "coords": hx(gen_float(rng, -60, 60, sp) for _ in range(k * n * 3)),
+         "charges": hx(gen_float(rng, -1.5, 1.5, sp / 2) for _ in range(k * n)),
+         "weights": hx(gen_float(rng, 0, 3, sp / 2) for _ in range(k)) if kind == "ens" else []}
+    return d
+
+
+def systematic_descs(E):
+    """every element, every member of every enum, in each slot at least once"""
+    hx = lambda xs: [float(x).hex() for x in xs]
+    out = []
+    L = max(len(v) for v in E.values())
+    n = 119
+    atoms = [{"element": z, "isotope": None if z % 3 else z, "label": None if z % 2 else f"E{z}",
+              "atype": E["atype"][z % len(E["atype"])], "stereo": E["astereo"][z % len(E["astereo"])],
+              "geom": E["geom"][z % len(E["geom"])], "formal_charge": (z % 5) - 2, "formal_spin": z % 3, "attrib": to_j({})}
+             for z in range(n)]
+    bonds = [{"a1": j, "a2": (j * 7 + 1) % n, "label": None, "btype": E["btype"][j % len(E["btype"])],
+              "stereo": E["bstereo"][j % len(E["bstereo"])], "f_order": (1.0 + 0.5 * (j % 3)).hex(), "attrib": to_j({})}
+             for j in range(max(len(E["btype"]), len(E["bstereo"])) * 2)]
+    for kind, ver in itertools.product(("mol", "ens"), (2, 1)):
+        k = 2 if kind == "ens" else 1
+        out.append({"kind": kind, "ver": ver, "name": "all-elements", "charge": -1, "mult": 2, "attrib": to_j({"n": n}),
+                    "atoms": atoms, "bonds": bonds, "nconf": k if kind == "ens" else 0,
+                    "coords": hx(0.25 * i - 40 for i in range(k * n * 3)), "charges": hx(0.001 * i for i in range(k * n)),
+                    "weights": hx([1.0, 0.5][:k]) if kind == "ens" else []})
+    return out
+
+
+def gen_cases(ctx, E, n_random):
+    rng = ctx.rng
+    descs = systematic_descs(E)
+    for i in range(n_random):
+        kind = "mol" if rng.random() < 0.5 else "ens"
+        ver = 2 if rng.random() < 0.65 else 1
+        risky = rng.random() < 0.2
+        descs.append(gen_desc(rng, E, kind, ver, max_atoms=(14 if ctx.thorough else 8), risky=risky))
+    return descs
+
+
+def bundled_objects(limit):
+    """entries of the libraries shipped with molli (two legacy v1 files, two v2 files): (file, key, object)"""
+    import molli as ml
+    out, problems = [], []
+    d = os.path.join(os.path.dirname(ml.__file__), "files")
+    for fn in sorted(os.listdir(d)):
+        p = os.path.join(d, fn)
+        if not fn.endswith(".mlib") or os.path.getsize(p) == 0:
+            continue
+        with open(p, "rb") as f:
+            ver = 1 if f.read(16).startswith(b"ML10Library") else 2
+        try:
+            lib = ml.MoleculeLibrary(p, readonly=True)
+            with lib.reading():
+                keys = sorted(lib.keys())
+                for i, k in enumerate(keys):
+                    try:
+                        m = lib[k]
+                    except Exception as e:         # noqa
+                        problems.append((fn, ver, k, e))
+                        continue
+                    if i < limit:
+                        out.append((fn, ver, k, m))
+        except Exception as e:                     # noqa
+            problems.append((fn, ver, None, e))
+    return out, problems
+
+
+# ====================================================================== run
+HEADER = "From Coq Require Import ZArith NArith String List.\nImport ListNotations.\nFrom Molli Require Import Common.ParseStr Model.Codec Gen.IoWiring.\nLocal Open Scope string_scope.\n"
+CODEC_OF = {("mol", 2): "MolV2", ("ens", 2): "EnsV2", ("mol", 1): "MolV1", ("ens", 1): "EnsV1"}
+
+
+def run_cases(ctx, items):
+    """items: list of dict(kind, ver, obj, src).  Stores and reads back; -> list of dict(+inp, outcome, back)."""
+    groups = {}
+    for i, it in enumerate(items):
+        groups.setdefault((it["kind"], it["ver"]), []).append(i)
+    work = ctx.sub("c01libs")
+    for (kind, ver), idx in groups.items():
+        path = os.path.join(work, f"lib_{kind}_v{ver}." + ("mlib" if kind == "mol" else "clib"))
+        res = store_and_read(path, kind, ver, {f"k{i}": items[i]["obj"] for i in idx})
+        for i in idx:
+            r = res[f"k{i}"]
+            items[i]["inp"] = describe(items[i]["obj"], kind)
+            if r[0] == "ok":
+                try:
+                    items[i]["back"] = describe(r[1], kind)
+                    items[i]["outcome"] = "ok"
+                except Exception as e:       # noqa
+                    items[i]["outcome"], items[i]["exc"], items[i]["where"] = "raised", e, "inspect"
+            else:
+                items[i]["outcome"], items[i]["where"], items[i]["exc"] = "raised", r[1], r[2]
+    return items
+
+
+def has_unstorable(v):
+    """a finite double that rounds to +-inf in single precision (msgpack use_single_float refuses it)"""
+    if isinstance(v, float):
+        return v == v and abs(v) != float("inf") and abs(_single(v)) == float("inf")
+    if isinstance(v, (list, tuple)):
+        return any(has_unstorable(x) for x in v)
+    if isinstance(v, dict):
+        return any(has_unstorable(k) or has_unstorable(x) for k, x in v.items())
+    return False
+
+
+def judge_item(it):
+    tag = f"C01:v{it['ver']}:{it['kind']}"
+    if it["outcome"] == "raised":
+        e = it["exc"]
+        d = it["inp"]
+        if it["where"] == "write" and isinstance(e, OverflowError) and has_unstorable(
+                [d["attrib"], [a["attrib"] for a in d["atoms"]], [[b["attrib"], b["f_order"]] for b in d["bonds"]]]):
+            return [(KNOWN_RANGE, f"an attribute value beyond the single-precision range makes the write raise ({type(e).__name__}: {e})")]
+        return [(f"{tag}:raises-on-{it['where']}:{type(e).__name__}",
+                 f"an object stored in a {'legacy ' if it['ver'] == 1 else ''}library could not be {it['where']} ({type(e).__name__}: {e})"[:400])]
+    return judge(it["inp"], it["back"], it["ver"])
+
+
+def case_term(it):
+    seen = f"(Back {cq_obj(it['back'])})" if it["outcome"] == "ok" else "Raised"
+    return f"({CODEC_OF[(it['kind'], it['ver'])]}, {cq_obj(it['inp'])}, {seen})"
+
+
+def case_key(it):
+    import hashlib
+    return hashlib.sha1(json.dumps([it["kind"], it["ver"], desc_of(it["inp"])], sort_keys=True).encode()).hexdigest()[:16]
+
+
+def run(ctx, rep):
+    rep.rule = ("tie T: the four serialisers / deserialisers executed on sentinel objects (every slot a unique value), "
+                "wiring regenerated and the round-trip premises decided by the kernel; tie H: generated molecules / ensembles "
+                "(all elements, every enum member, None/empty/unicode labels, nested attributes, 0 atoms, 0 bonds, 0..4 conformers, "
+                "NaN/inf/denormal coordinates) and the entries of the bundled libraries, stored in a writing() session and read "
+                "back by a fresh handle in a reading() session, v2 and legacy v1; a case is non-trivial when the object has at "
+                "least one atom; distinct by its full description")
+    rep.trusted += ["T-emitter harness/c01.py (Sentinel / ser_wiring / des_wiring: CPython executing _serialize_* and "
+                    "_deserialize_* of molli/chem/io.py on objects whose slots hold unique values; a (de)serialiser that "
+                    "treats values non-uniformly is outside what one sentinel run shows -- the H tie covers that)",
+                    "msgpack / msgpack_numpy / numpy conversions are modelled (mnorm, packed arrays with a dtype tag), not verified",
+                    "single-precision rounding of floats is computed by numpy in the harness (f32_bits); NaNs are one pattern",
+                    "correspondence harness: construction through the public constructors, describe() of both objects, "
+                    "canonical ordering of dict entries",
+                    "the storage layer (UKV file, backend, sessions) is driven through the public API only (verified in C02-C04)"]
+    rep.assumptions += ["objects are well-formed (wf_obj): name a string, charge an int, mult a non-zero int (mult = 0 reads back "
+                        "as 1 through `mult or 1`), attrib a dict, rectangular arrays (C05/C14), every bond endpoint an atom of the "
+                        "object and no atom object listed twice (atom identity is modelled as position)",
+                        "attribute values are msgpack-able python values (None, bool, int within 64 bits, str, bytes, float, list, "
+                        "tuple, dict); numpy arrays inside attrib go through msgpack_numpy and are not modelled"]
+    import warnings
+    warnings.simplefilter("ignore")      # numpy overflow warnings of astype(">f4") on deliberately huge coordinates
+    known = {k["signature"] for k in vlib.load_known() if k.get("property") == "C01" and k.get("status") == "known"}
+    # ---- tie T
+    W, dfl, zmax = observe_wirings()
+    with vlib.CoqLock():
+        vlib.write_if_changed(GEN, gen_text(W, dfl, zmax))
+    for c, w in W.items():
+        rep.count("wiring:" + c + (":error" if "error" in w else ""))
+        rep.extra.setdefault("wiring", {})[c] = {k: v for k, v in w.items() if k != "ens"}
+    ok, out, where = vlib.build_props(ctx, rep, "C01")
+    # ---- tie H
+    E = enum_tables()
+    found = False
+    items = []
+    for d in gen_cases(ctx, E, 3000 if ctx.thorough else 330):
+        try:
+            items.append({"kind": d["kind"], "ver": d["ver"], "obj": build(d), "src": "gen", "desc": d})
+        except Exception as e:   # the public constructors refused a generated description: not a C01 matter, but say so
+            rep.count("build-refused:" + type(e).__name__)
+    bundled, problems = bundled_objects(400 if ctx.thorough else 12)
+    for fn, ver, k, e in problems:
+        found = True
+        rep.violate(f"C01:v{ver}:mol:bundled-unreadable:{type(e).__name__}",
+                    f"entry {k!r} of the bundled library {fn} cannot be read ({type(e).__name__}: {e})"[:400],
+                    {"kind": "bundled", "file": fn, "key": k})
+    for fn, ver, k, m in bundled:
+        for v2 in ((ver,) if not ctx.thorough else (1, 2)):
+            items.append({"kind": "mol", "ver": v2, "obj": m, "src": f"{fn}:{k}"})
+        rep.count("bundled:" + fn)
+    items = run_cases(ctx, items)
+    terms, kept = [], []
+    reproduced = set()
+    for it in items:
+        n = it["inp"]["n_atoms"]
+        key = case_key(it) if n > 0 else None
+        rep.case(key=key, sample=({"codec": CODEC_OF[(it["kind"], it["ver"])], "src": it["src"], "atoms": n,
+                                   "bonds": it["inp"]["n_bonds"], "nconf": it["inp"]["nconf"], "name": it["inp"]["name"][:20]}
+                                  if key and it["src"] == "gen" and 2 < n < 9 else None))
+        rep.count("codec:" + CODEC_OF[(it["kind"], it["ver"])])
+        rep.count("atoms:0" if n == 0 else "atoms:>0")
+        rep.count("bonds:0" if it["inp"]["n_bonds"] == 0 else "bonds:>0")
+        if it["kind"] == "ens":
+            rep.count(f"nconf:{min(it['inp']['nconf'], 4)}")
+        if any(x != x for x in it["inp"]["coords"]):
+            rep.count("coords:has-nan")
+        rep.count("outcome:" + it["outcome"])
+        vs = judge_item(it)
+        for sig, what in vs:
+            if sig in known:
+                reproduced.add(sig)
+            else:
+                found = True
+            rp = {"kind": "case", "ver": it["ver"], "desc": {**desc_of(it["inp"]), "ver": it["ver"]}} if it["src"] == "gen" \
+                else {"kind": "bundled", "file": it["src"].split(":")[0], "key": it["src"].split(":", 1)[1], "ver": it["ver"]}
+            rep.violate(sig, what, rp)
+        try:
+            terms.append(case_term(it))
+            kept.append(it)
+        except TypeError as e:    # a value outside the modelled attribute language (e.g. a numpy array in a bundled entry)
+            rep.count("not-modelled:" + str(e)[:40])
+    bad = vlib.run_shards(ctx, rep, "c01", HEADER, "check_case", terms, shard=max(8, (len(terms) + 15) // 16), timeout=900,
+                          case_type="codec * obj * outcome") if ok else []
+    if bad is None:
+        vlib.broken_obligation(rep, "corr_c01", "a correspondence shard did not compile: " + str(rep.extra.get("shard_errors", ""))[-1500:], found)
+    elif bad:
+        # model and implementation disagree on these stored objects: the oracle has already judged each of them
+        rep.extra["mismatching_cases"] = [{"src": kept[i]["src"], "codec": CODEC_OF[(kept[i]["kind"], kept[i]["ver"])]} for i in bad[:20]]
+        explained = all(any(s not in known for s, _ in judge_item(kept[i])) for i in bad)
+        vlib.broken_obligation(rep, "corr_c01", f"{len(bad)} stored object(s) read back differently from the model, e.g. "
+                               + json.dumps(rep.extra["mismatching_cases"][:3]), found and explained)
+    if not ok:
+        # a premise of the round-trip theorem no longer holds on the regenerated wiring: the oracle over the generated
+        # objects (which exercise every slot with distinguishable values) is the search for a concrete input
+        vlib.broken_obligation(rep, "C01_roundtrip", f"{where}\n{out[-1500:]}", found)
+    return tuple(sorted(reproduced))
+
+
+def replay(ctx, data):
+    out = []
+    if data.get("kind") == "case":
+        d = data["desc"]
+        it = run_cases(ctx, [{"kind": d["kind"], "ver": d.get("ver", data.get("ver", 2)), "obj": build(d), "src": "gen"}])[0]
+        out += [vlib.Violation(s, t) for s, t in judge_item(it)]
+    elif data.get("kind") == "bundled":
+        import molli as ml
+        p = os.path.join(os.path.dirname(ml.__file__), "files", data["file"])
+        lib = ml.MoleculeLibrary(p, readonly=True)
+        try:
+            with lib.reading():
+                m = lib[data["key"]]
+        except Exception as e:       # noqa
+            return [vlib.Violation("C01:bundled-unreadable", f"{data['file']}:{data['key']}: {type(e).__name__}: {e}")]
+        it = run_cases(ctx, [{"kind": "mol", "ver": data.get("ver", 2), "obj": m, "src": "bundled"}])[0]
+        out += [vlib.Violation(s, t) for s, t in judge_item(it)]
+    return out
